@@ -64,7 +64,7 @@ def gen(params):
     # whole URLs from canonical pools
     hosts = ["h", "example.com", "a-b.c_d~e", "1.2.3.4", "a%2fb", "xn--bcher-kva.example", "h.", "sub!$&'()*+,;=x",
              "[::1]", "[2001:db8::6f]", "[fe80::1%25eth0]", "[1:2:3:4:5:6:7:8]", "[::]", "[2001:db8:0:1::]", "[a::b:0:0:c]",
-             "[fe80::a%25en1]",
+             "[fe80::a%25en1]", "", "",
              # near misses: not the RFC 5952 text / not a canonical zone (TLC classifies them; they only count when canonical)
              "[2001:DB8::1]", "[0:0:0:0:0:0:0:1]", "[::ffff:1.2.3.4]", "[fe80::1%eth0]", "[1::0:0:1]"]
     ports = ["", ":0", ":1", ":80", ":443", ":21", ":8080", ":65535", ":081", ":65536", ":"]
